@@ -26,6 +26,113 @@ func verifFragmentPaths(manifest Manifest) []string {
 // fragment (kind 0-2), a fragment replaced by another one or by a re-written one of the
 // same shape (3,4), a manifest entry that no longer matches its fragment (5) - Load fails,
 // and it fails before any node or relationship has been written.
+// verifRewriteFragments re-writes node and edge fragments of a dump record by record and
+// brings the manifest's sizes and digests in line with the new contents.
+func verifRewriteFragments(out string, manifest Manifest, node func(graphName string, item *FragmentNode), edge func(graphName string, item *FragmentEdge)) bool {
+	for gi := range manifest.Graphs {
+		for fi := range manifest.Graphs[gi].Files {
+			entry := &manifest.Graphs[gi].Files[fi]
+			path := filepath.Join(out, filepath.FromSlash(entry.Path))
+			data, ok := verifReadFile(path)
+			if !ok {
+				return false
+			}
+			var changed []byte
+			start := 0
+			for i, c := range data {
+				if c != '\n' {
+					continue
+				}
+				line := data[start:i]
+				start = i + 1
+				if entry.Phase == PhaseNodes {
+					var item FragmentNode
+					if json.Unmarshal(line, &item) != nil {
+						return false
+					}
+					node(manifest.Graphs[gi].Name, &item)
+					payload, _ := json.Marshal(item)
+					changed = append(append(changed, payload...), '\n')
+				} else {
+					var item FragmentEdge
+					if json.Unmarshal(line, &item) != nil {
+						return false
+					}
+					edge(manifest.Graphs[gi].Name, &item)
+					payload, _ := json.Marshal(item)
+					changed = append(append(changed, payload...), '\n')
+				}
+			}
+			if verifOsWriteFile(path, changed, 0o600) != nil {
+				return false
+			}
+			entry.SHA256 = verifDigestHex(changed)
+			entry.CompressedBytes, entry.UncompressedBytes = int64(len(changed)), int64(len(changed))
+		}
+	}
+	payload, _ := json.MarshalIndent(manifest, "", "  ")
+	return verifOsWriteFile(filepath.Join(out, manifestFileName), append(payload, '\n'), 0o600) == nil
+}
+
+// VerifC20CrossGraph: a self-consistent forged collection (digests and sizes match) of two
+// graphs in which one relationship of the second graph points at a source node id that
+// exists only in the first graph (a non-numeric id, or a numeric one). Load must fail before
+// anything is written.
+func VerifC20CrossGraph(n, e int) {
+	dir := verifWorkDir()
+	defer verifCleanupWorkDir(dir)
+	ctx := context.Background()
+	src, targets := verifFixedSource(n, e, 2)
+	out := filepath.Join(dir, "dump")
+	options := DefaultDumpOptions(out)
+	options.Compression = CompressionNone
+	options.BatchSize = 2
+	options.ShardSize = 1 + verifrt.NondetChoice("shard size", 2)
+	if _, err := Dump(ctx, src, "test", targets, options); err != nil {
+		verifrt.Fail("the dump that is to be forged failed")
+	}
+	manifest, err := readManifest(out)
+	if err != nil {
+		verifrt.Fail("the dump has no readable manifest")
+	}
+	foreign := []string{"svc-a", "7777"}[verifrt.NondetChoice("foreign id", 2)]
+	useStart := verifrt.NondetChoice("forged endpoint is the start", 2) == 1
+	forgedEdges := 0
+	ok := verifRewriteFragments(out, manifest, func(graphName string, item *FragmentNode) {
+		// the first graph's first node gets the foreign id
+		if graphName == "alpha" && item.ID == "1" {
+			item.ID = foreign
+		}
+	}, func(graphName string, item *FragmentEdge) {
+		if graphName == "alpha" {
+			if item.StartID == "1" {
+				item.StartID = foreign
+			}
+			if item.EndID == "1" {
+				item.EndID = foreign
+			}
+			return
+		}
+		if forgedEdges == 0 {
+			if useStart {
+				item.StartID = foreign
+			} else {
+				item.EndID = foreign
+			}
+			forgedEdges++
+		}
+	})
+	if !ok || forgedEdges == 0 {
+		return
+	}
+	dst := verifNewDatabase()
+	loadOptions := DefaultLoadOptions(out)
+	loadOptions.BatchSize = 2
+	_, err = Load(ctx, dst, "test", loadOptions)
+	verifrt.Assert(err != nil, "a relationship whose endpoint exists only in another graph is rejected")
+	verifrt.Assert(len(dst.mutations) == 0, "nothing is written to the target database when the input is rejected")
+}
+
 func VerifC20Tamper(n, e, kind int) {
 	dir := verifWorkDir()
 	defer verifCleanupWorkDir(dir)
